@@ -398,3 +398,14 @@ func (w *World) SentCount() int {
 	defer w.mu.Unlock()
 	return len(w.Sent)
 }
+
+// PayCallsCopy returns a snapshot of the node's payment calls (values, taken under the world lock).
+func (n *Node) PayCallsCopy() []PayCall {
+	n.W.mu.Lock()
+	defer n.W.mu.Unlock()
+	out := make([]PayCall, 0, len(n.PayCalls))
+	for _, pc := range n.PayCalls {
+		out = append(out, *pc)
+	}
+	return out
+}
